@@ -381,7 +381,14 @@ def run_m2d_case(ctx, case):
     n = len(vals)
     ctx.evaluated()
     ctx.tag("m2d:" + interp)
-    months = pd.date_range(start, periods=n, freq="MS")
+    # the monthly series may carry a time zone (local calendar months east or west of
+    # Greenwich): months, their lengths and their totals are those of that calendar
+    tz = case.get("tz")
+    if tz and start.year < 1980:
+        tz = None        # (historic daylight-saving rules make midnights ambiguous)
+    if tz:
+        ctx.tag("m2d:zone-aware-index")
+    months = pd.date_range(start, periods=n, freq="MS", tz=tz)
     se = pd.Series(vals, index=months)
     ctx.api("monthly2daily")
     with warnings.catch_warnings():
@@ -389,11 +396,16 @@ def run_m2d_case(ctx, case):
         try:
             sed = du.monthly2daily(se, interpolation=interp)
         except Exception as e:
+            if tz and interp == "cubic":
+                # (the cubic branch of the unchanged library refuses zone-aware months
+                # around daylight-saving changes; a refusal is not a wrong total)
+                ctx.extra["m2d-cubic-zone-aware-refused"] += 1
+                return
             ctx.check("m2d.runs", False, f"monthly2daily|{interp}|raises", case,
                       {"exc": repr(e)})
             return
     last = months[-1] + pd.offsets.MonthEnd(0)
-    days = pd.date_range(start, last, freq="D")
+    days = pd.date_range(start, last.tz_localize(None) if tz else last, freq="D", tz=tz)
     same_idx = len(sed) == len(days) and bool((sed.index == days).all())
     ctx.check("m2d.index", same_idx, f"monthly2daily|{interp}|index", case,
               lambda: {"len": len(sed), "expected": len(days),
@@ -488,7 +500,10 @@ def run(ctx):
             vals[rng.random(nmon) < 0.3] = 0.0
         for interp in ("flat", "cubic"):
             run_m2d_case(ctx, {"kind": "m2d", "start": f"{year:04d}-{month:02d}-01",
-                               "values": vals, "interpolation": interp})
+                               "values": vals, "interpolation": interp,
+                               "tz": [None, None, "Australia/Sydney", "UTC",
+                                      "America/Denver", "Asia/Tokyo"][
+                                   (year + month + nmon) % 6]})
 
 
 def replay(ctx, case):
